@@ -220,7 +220,10 @@ def gen_ext(rng, schema, n):
     if names["enum"] and rng.random() < 0.4:
         ext["values"][rng.choice(names["enum"])] = ["EXT_V%d" % n]
     if names["input"] and rng.random() < 0.4:
-        ext["input_fields"][rng.choice(names["input"])] = [{"name": "ext_i%d" % n, "ty": ty(rng.choice(W.SCALARS + names["enum"]))}]
+        t = ty(rng.choice(W.SCALARS + names["enum"]))
+        if t["k"] == "nonNull":
+            t = t["t"]      # a new REQUIRED input field would invalidate existing default values of that input type
+        ext["input_fields"][rng.choice(names["input"])] = [{"name": "ext_i%d" % n, "ty": t}]
     if rng.random() < 0.25:
         ext["new_dirs"].append({"name": "ext_dir%d" % n, "args": [{"name": "d_arg", "ty": ty("Int")}], "locs": ["FIELD"]})
     if not any(ext[k] for k in ext):
@@ -262,7 +265,7 @@ def gen_steps(rng, schema, n_steps):
         r = rng.random()
         if r < 0.15:
             steps.append({"op": "clone", "src": 0})
-        elif r < 0.65:
+        elif r < 0.55:
             vs = []
             k = rng.random()
             if k < 0.55:
@@ -275,7 +278,16 @@ def gen_steps(rng, schema, n_steps):
                 vs.append(gen_visibility(rng, schema))
                 vs.append({"k": "camel"})
             steps.append({"op": "transform", "src": 0, "visitors": vs})
-        elif r < 0.9:
+        elif r < 0.8:
+            vs = []
+            for _ in range(rng.randint(1, 2)):
+                k = rng.random()
+                vs.append(gen_visibility(rng, schema) if k < 0.6 else ({"k": "camel"} if k < 0.8 else gen_sdir(rng, schema)))
+            if sum(1 for v in vs if v["k"] == "camel") > 1:
+                vs = vs[:1]
+            vs.sort(key=lambda v: v["k"] == "camel")     # predicates name elements by their source names: rename last
+            steps.append({"op": "inplace", "src": 0, "visitors": vs})
+        elif r < 0.92:
             steps.append({"op": "extend", "src": 0, "ext": gen_ext(rng, schema, i)})
         else:
             names = live_names(schema)
@@ -297,6 +309,8 @@ def camel_table(schema):
     from py_gql.schema import InputObjectType, InterfaceType, ObjectType
     names = set()
     for n, t in schema.types.items():
+        if n.startswith("__"):
+            continue
         if isinstance(t, (ObjectType, InterfaceType)):
             for f in t.fields:
                 names.add(f.name)
@@ -375,6 +389,19 @@ def apply_step(step, schemas, funcs):
                 if v["k"] == "camel":
                     v["table"] = camel_table(src)
             return transform_schema(src, *[make_visitor(v, funcs) for v in step["visitors"]]), "ok"
+        if step["op"] == "inplace":
+            # ONE schema object: use it (derived caches get filled), transform it IN PLACE, use it again (done by the caller)
+            c = src.clone()
+            cur = c
+            for v in step["visitors"]:
+                W.use_schema(cur)
+                if v["k"] == "camel":
+                    v["table"] = camel_table(cur)
+                cur = make_visitor(v, funcs).on_schema(cur)
+                if cur is not c:
+                    return None, "internal:NotInPlace"
+                c.validate()      # an invalid intermediate schema (e.g. the query type hidden) is a rejected step
+            return c, "ok"
         if step["op"] == "extend":
             step["sdl"] = ext_sdl(step["ext"], src)
             return extend_schema(src, step["sdl"]), "ok"
@@ -579,12 +606,12 @@ def check_result(step, src_world, world, ri, fail):
              % (world["schemas"][0]["dres"], world["schemas"][ri]["dres"]))
 
 
-def check_hidden_live(step, result, fail):
+def check_hidden_live(step, result, fail, intro=None):
     """Hidden elements cannot be reached through the REAL introspection query nor a REAL query."""
     hid_t, hid_f, hid_i, hid_d, ren, wrapped, dropped = expected_effect(step)
     if not (hid_t or hid_f or hid_i or hid_d or dropped):
         return
-    types, dirs = W.introspect(result)
+    types, dirs = intro if intro is not None else W.introspect(result)
     if types is None:
         fail("result-unusable:introspection", "introspection query on the result reports errors")
         return
@@ -608,6 +635,25 @@ def check_hidden_live(step, result, fail):
             out = W.run_query(result, "{ %s }" % ren(f))
             if isinstance(out, dict) and out.get("data") is not None and not out["errors"]:
                 fail("hidden-reachable:field:query", "hidden root field %s answered by a real query" % f)
+
+
+def check_possible_live(step, result, fail, intro=None):
+    """`possibleTypes` reported by the REAL introspection query = the registered members / implementers."""
+    from py_gql.schema import InterfaceType, UnionType
+    types, _ = intro if intro is not None else W.introspect(result)
+    if types is None:
+        fail("result-unusable:introspection", "introspection query on the result reports errors")
+        return
+    for name, t in result.types.items():
+        if name.startswith("__") or not isinstance(t, (InterfaceType, UnionType)):
+            continue
+        exp = sorted(o.name for o in W.expected_possible(result, t))
+        got = (types.get(name) or {}).get("possibleTypes")
+        if got != exp:
+            extra = [n for n in (got or []) if n not in exp]
+            kind = "lists-removed-type" if any(n not in result.types for n in extra) else ("extra" if extra else "missing")
+            fail("closed:%s:possibleTypes-introspection:%s" % (step["op"], kind),
+                 "introspection reports possibleTypes of %s = %s, the registry says %s" % (name, got, exp))
 
 
 _SOURCE_RANK = [("frame:", 0), ("source-unusable:", 1)]
@@ -640,7 +686,7 @@ def one_sequence(ctx, seed_note, size, n_steps, steps=None, build_seed=None):
     base_raw = dumper.dump([source])
     base_world = W.canon(base_raw)
     query = W.coverage_query(source)
-    base_q = W.run_query(source, query)
+    base_q = W.use_schema(source)                   # the schema is in use: every derived cache is populated
     try:
         base_text = source.to_string()
     except Exception as e:  # noqa
@@ -657,11 +703,13 @@ def one_sequence(ctx, seed_note, size, n_steps, steps=None, build_seed=None):
         if step["src"] >= len(schemas):
             step["src"] = 0
         ctx.count()
+        if step["src"] != 0:
+            W.use_schema(schemas[step["src"]])      # (the source itself is used once before the first step and after every step)
         res, status = apply_step(step, schemas, funcs)
         step["status"] = status
         record["steps"].append(step)
         model_steps.append(step)
-        ctx.stat("step:%s:%s" % (step["op"] + ("/" + "+".join(v["k"] for v in step["visitors"]) if step["op"] == "transform" else ""),
+        ctx.stat("step:%s:%s" % (step["op"] + ("/" + "+".join(v["k"] for v in step["visitors"]) if step["op"] in ("transform", "inplace") else ""),
                                  status.split(":")[0]))
         found = []
 
@@ -669,7 +717,7 @@ def one_sequence(ctx, seed_note, size, n_steps, steps=None, build_seed=None):
             if not any(s == sig for s, _ in found):
                 found.append((sig, what))
 
-        if status.startswith("rejected:") and step["op"] in ("clone", "transform") and not any(
+        if status.startswith("rejected:") and step["op"] in ("clone", "transform", "inplace") and not any(
                 v.get("types") or v.get("fields") or v.get("inputs") or v.get("dirs") or v.get("drop") for v in step.get("visitors", [])):
             fail("step-raises:%s:rejected-without-removal:%s" % (step["op"], "+".join(v["k"] for v in step.get("visitors", []))),
                  "%s that removes nothing was rejected with %s (the source validates)" % (step["op"], status))
@@ -700,17 +748,28 @@ def one_sequence(ctx, seed_note, size, n_steps, steps=None, build_seed=None):
             fail("source-unusable:print-differs:%s" % step["op"], "source prints differently after the step")
         if res is not None:
             schemas.append(res)
-            bad = W.closed_violations(res)
-            if bad:
-                kind = "stale-object" if "stale" in bad[0] else ("unregistered" if "unregistered" in bad[0] else "index")
-                fail("closed:%s:%s:%s" % (step["op"], kind, bad[0].split(" ")[0]), "result not closed: %s" % bad[0])
+            def closed_check(when):
+                bad = W.closed_violations(res)
+                if bad:
+                    kind = "stale-object" if "stale" in bad[0] else ("unregistered" if "unregistered" in bad[0] else
+                                                                      ("incomplete" if "incomplete" in bad[0] else "index"))
+                    where = re.split(r"[\[(]", bad[0].split(" ")[0])[0]
+                    fail("closed:%s:%s:%s" % (step["op"], kind, where), "result not closed (%s): %s" % (when, bad[0]))
+            closed_check("right after the step")
             world = W.canon(dumper.dump([source, res]))
             check_result(step, base_world, world, 1, fail)
             if step["op"] != "replace":
-                check_hidden_live(step, res, fail)
-            rq = W.run_query(res, W.coverage_query(res)) if step["op"] != "replace" else {}
+                intro = W.introspect(res)
+                check_hidden_live(step, res, fail, intro)
+                check_possible_live(step, res, fail, intro)
+            rq = W.use_schema(res) if step["op"] != "replace" else {}
+            closed_check("after using the result")
             if not isinstance(rq, dict):
                 fail("result-unusable:query:%s" % step["op"], "coverage query on the result raised %s" % rq)
+            elif [m for m in rq.get("errors", []) if not m.endswith("is not nullable")] and isinstance(base_q, dict) and not base_q.get("errors"):
+                # ("is not nullable" = the harness' resolver has no possible object left for an abstract type: not a defect)
+                fail("result-unusable:query-errors:%s" % step["op"], "coverage query (fragments on every possible type) on the result reports %s"
+                     % [m for m in rq["errors"] if not m.endswith("is not nullable")][:2])
             elif step["op"] in ("clone",) and rq != base_q:
                 fail("result-differs:query:clone", "a clone answers the coverage query differently from its source")
             key = (step["op"], json.dumps(step.get("visitors", step.get("ext", step.get("entries"))), sort_keys=True)[:400],
@@ -726,8 +785,8 @@ def one_sequence(ctx, seed_note, size, n_steps, steps=None, build_seed=None):
 def to_model_request(base_world, steps, cfg):
     msteps = []
     for s in steps:
-        m = {"op": s["op"], "src": s["src"], "rejected": not s["status"] == "ok"}
-        if s["op"] == "transform":
+        m = {"op": "transform" if s["op"] == "inplace" else s["op"], "src": s["src"], "rejected": not s["status"] == "ok"}
+        if s["op"] in ("transform", "inplace"):
             vs = []
             for v in s["visitors"]:
                 v2 = {k: v[k] for k in v if k not in ("wrap_ids",)}
